@@ -497,12 +497,20 @@ theorem step_cacheInv {T : Nat} {st : RState} {log : List (Key × Outcome)} (i :
       · cases hr : i.render m with
         | ok a =>
           rw [extract_fresh hf hr]
+          have hdel : CacheInv log (delIf (cacheAt T st i) (blockKey m)) :=
+            hadv.of_items (fun k v hl => by
+              by_cases hk : k = blockKey m
+              · subst hk; rw [delIf_lookup_self] at hl; cases hl
+              · rwa [delIf_lookup_ne _ hk] at hl)
           split
-          · simpa [hr] using cacheInv_set_new (blockKey m) a hadv
+          · simpa [hr] using cacheInv_set_new (blockKey m) a hdel
           · simpa [hr] using cacheInv_del_new (blockKey m) (.ok a) hadv
         | error code =>
           rw [extract_fresh_raised hf hr]
           simpa [hr] using cacheInv_del_new (blockKey m) (.error code) hadv
+        | junk =>
+          rw [extract_fresh_junk hf hr]
+          simpa [hr] using cacheInv_del_new (blockKey m) .junk hadv
       · have hf' : isFresh m = false := by simpa using hf
         obtain ⟨b, hb, hb0⟩ := later_of_not_fresh hf'
         cases hl : alookup (blockKey m) (cacheAt T st i).items with
